@@ -158,7 +158,7 @@ def match_pattern(toks, i, hi, pat, pi=0):
 
 
 class Body:
-    def __init__(self, source, qual, nth=0):
+    def __init__(self, source, qual, nth=0, closure=None):
         self.source = source
         self.qual = qual
         toks = source.toks
@@ -173,6 +173,40 @@ class Body:
         self.lost_hints = []
         self.params = param_names(toks, self.fn_idx, self.open)
         self.is_async = self.fn_idx > 0 and toks[self.fn_idx - 1].text == "async"
+        if closure:
+            # R11: the block body of the named local closure `let NAME = |params| [-> T] { .. };` becomes the body
+            found = None
+            for i in range(self.open + 1, self.close - 3):
+                if toks[i].text == "let" and toks[i + 1].text == closure and toks[i + 2].text == "=":
+                    j = i + 3
+                    if toks[j].text == "move":
+                        j += 1
+                    if toks[j].text != "|":
+                        continue
+                    pe = j + 1
+                    while toks[pe].text != "|":
+                        if toks[pe].text in OPEN:
+                            pe = match_close(toks, pe)
+                        pe += 1
+                    names = []
+                    seg = []
+                    for t in toks[j + 1:pe]:
+                        if t.text == ",":
+                            names.append(seg[0].text if seg else "_")
+                            seg = []
+                        else:
+                            seg.append(t)
+                    if seg:
+                        names.append(seg[0].text)
+                    b = pe + 1
+                    while toks[b].text != "{":
+                        b += 1
+                    found = (b, match_close(toks, b), names)
+                    break
+            if found is None:
+                raise LostAnchor(f"local closure {closure} not found in {qual}")
+            self.open, self.close, self.params = found
+            self.qual = qual + "::" + closure
         self.first_line = source.line_of(toks[self.open].start)
 
     # -------------------------------------------------------------- helpers
@@ -267,6 +301,42 @@ class Body:
                         self.edit(toks[s].start, toks[k].end, "", "R2-cfg-on", attr)
                     else:
                         self.edit(toks[s].start, toks[e].end, "", "R2-cfg-off")
+
+    def rule_cfg_fields(self, features_off=("open-metrics", "loud"), features_on=()):
+        """R2b: `#[cfg(feature = "F")] field: expr,` inside a struct literal (or any comma-separated list):
+        the element is deleted when F is off, the attribute alone when F is on."""
+        toks = self.toks
+        covered = [(a, b) for (a, b, *_r) in self.edits]
+        i = self.open + 1
+        while i < self.close:
+            if toks[i].text == "#" and toks[i + 1].text == "[" and toks[i + 2].text == "cfg":
+                k = match_close(toks, i + 1)
+                attr = self.text(i, k)
+                if any(a <= toks[i].start < b for (a, b) in covered):
+                    i = k + 1
+                    continue
+                m = re.search(r'cfg\(\s*(not\()?\s*feature\s*=\s*"([^"]+)"', attr)
+                if m and (m.group(2) in features_off or m.group(2) in features_on):
+                    on = (m.group(2) in features_on) != bool(m.group(1))
+                    if on:
+                        self.edit(toks[i].start, toks[k].end, "", "R2b-cfg-on", attr)
+                    else:
+                        j = k + 1
+                        while j < self.close:
+                            t = toks[j]
+                            if t.kind == "punct" and t.text in OPEN:
+                                j = match_close(toks, j) + 1
+                                continue
+                            if t.kind == "punct" and t.text == ",":
+                                break
+                            if t.kind == "punct" and t.text in CLOSE:
+                                j -= 1
+                                break
+                            j += 1
+                        self.edit(toks[i].start, toks[j].end, "", "R2b-cfg-off")
+                i = k + 1
+                continue
+            i += 1
 
     def rule_cfg_macro(self, features_on=(), features_off=()):
         """R13: cfg!(feature = "F") -> true/false"""
@@ -512,14 +582,16 @@ class Body:
         toks = self.toks
         spans = stmt_spans(toks, self.open, self.close)
         sp = [t.text for t in lex(start_prefix)]
-        ep = [t.text for t in lex(end_prefix)]
+        ep = [t.text for t in lex(end_prefix)] if end_prefix.strip() != "$" else []
         si = ei = None
         for k, (s, e) in enumerate(spans):
             if si is None and [t.text for t in toks[s:s + len(sp)]] == sp:
                 si = k
-            if si is not None and [t.text for t in toks[s:s + len(ep)]] == ep:
+            if si is not None and end_prefix.strip() != "$" and [t.text for t in toks[s:s + len(ep)]] == ep:
                 ei = k
                 break
+        if si is not None and end_prefix.strip() == "$":
+            ei = len(spans) - 1
         if si is None or ei is None:
             raise LostAnchor(f"{self.qual}: fragment anchors `{start_prefix}` .. `{end_prefix}` not found")
         a = toks[self.open].end
